@@ -8,7 +8,7 @@
 From Coq Require Import String.
 From MW Require Import Model.Base Model.F64 Model.Num Model.NumFmt Model.Datum Model.Lex Model.Parse
   Model.TransformDef Model.Transform Model.VmTypes Model.Heap Model.VmBase Model.Compile Model.Vm.
-From MW Require Model.Ratio32 Model.NumArith Model.NumProc Model.Str.
+From MW Require Model.Ratio32 Model.NumArith Model.NumProc Model.Str Model.SymbolB.
 From MW Require Gen.Builtins Gen.Prelude.
 Open Scope N_scope.
 
@@ -141,6 +141,22 @@ Definition cell_builtin (f : list cell -> out cell) : M vcell :=
   dom r <- lift (f cs);
   maybe_put_cell_m r.
 
+(* builtin/symbol.rs:13-52 over the name encoding of Model/SymbolB.v (package "gc") *)
+Definition b_string_symbol : M vcell :=
+  dom _ <- pop_argc 1 (Some 1); dom sid <- pop_string; dom t <- str_get sid;
+  ret (VSym (SymbolB.string_to_symbol t)).
+Definition b_symbol_string : M vcell :=
+  dom _ <- pop_argc 1 (Some 1); dom name <- pop_symbol;
+  dom t <- lift (SymbolB.symbol_to_string name); str_new t.
+Fixpoint symbol_eq_loop (k : nat) (y : text) (result : bool) : M bool :=
+  match k with
+  | O => ret result
+  | S k' => dom x <- pop_symbol; symbol_eq_loop k' x (result && text_eqb x y)
+  end.
+Definition b_symbol_eq : M vcell :=
+  dom argc <- pop_argc 1 None; dom y <- pop_symbol;
+  dom r <- symbol_eq_loop (N.to_nat (argc - 1)) y true; ret (VBool r).
+
 Definition pkg_builtin (b : N) : M vcell :=
   let n := builtin_name b in
   (* ---- number.rs *)
@@ -222,6 +238,9 @@ Definition pkg_builtin (b : N) : M vcell :=
   else if text_is n "char-ci>?" then Str.char_ci_cmp Str.CGt
   else if text_is n "char-ci<=?" then Str.char_ci_cmp Str.CLe
   else if text_is n "char-ci>=?" then Str.char_ci_cmp Str.CGe
+  else if text_is n "string->symbol" then b_string_symbol
+  else if text_is n "symbol->string" then b_symbol_string
+  else if text_is n "symbol=?" then b_symbol_eq
   (* ---- list.rs / vector.rs / predicate.rs: temporary models until package "lv" lands *)
   else tmp_builtin b.
 
